@@ -50,52 +50,60 @@ def run(ck, F):
     R = ck.rule('C16.elementary', 'an elementary substitution maps its parameter to its value and every other parameter to '
                 'itself (E1 over {queried is the bound one, is another})', floor=2)
     mk = F.need_fn('ipr::impl::expr_factory::make_elementary_substitution(const ipr::Parameter &, const ipr::Expr &)')
-    outs = [o for o in S.run(mk['id']) if o[1] == 'return']
-    if not outs:
-        raise AnalysisBroken('make_elementary_substitution never returns')
-    op = None
-    for pi, (st, _k, v) in enumerate(outs):
-        tag = '' if len(outs) == 1 else f' [path {pi}: {contracts.render_conds(st.conds, st, {})[:100]}]'
-        # the substitution handed out must be one built here from (p, v): an object that existed before (the last one made, a
-        # cached one) has a binding of its own, which the request cannot know
-        obj0 = v[1] if isinstance(v, tuple) and v and v[0] == 'addr' else v
-        if not (isinstance(obj0, tuple) and obj0 and obj0[0] == 'obj' and obj0[1] in st.heap) and reused_is_same_binding(F, S, st, obj0):
-            ck.ok(R, 'operator[](bound parameter)' + tag)
-            ck.ok(R, 'operator[](other parameter)' + tag)
-            continue
-        if not (isinstance(obj0, tuple) and obj0 and obj0[0] == 'obj' and obj0[1] in st.heap):
-            ck.fail(R, 'operator[](bound parameter)' + tag, 'make_elementary_substitution(p, v) hands out `' + contracts.render(v, st, {})[:80]
-                    + '`, a substitution that existed before the request: whatever it binds, it was not built from (p, v), and applied to its '
-                    'own parameter it does not leave that parameter unchanged', loc=mk['loc'], fn=mk['id'])
-            continue
-        obj = v[1]
-        cls = st.heap[obj[1]].cls
-        op = F.final_overrider(cls, 'ipr::Substitution::operator[](const ipr::Parameter &) const')
-        if op is None or op not in F.fn:
-            raise AnalysisBroken('Elementary_substitution::operator[] not found')
-        f = F.fn[op]
-        Q = ('param', 100)
-        res = S.run(op, this=obj, args=[Q], state=st.fork())
-        base = len(st.conds)
-        cases = {}
-        for s2, k2, v2 in res:
-            conds = s2.conds[base:]
-            if k2 != 'return' or len(conds) != 1:
-                cases['?'] = f'{k2} under {len(conds)} conditions'
+    # every overload of that name a client's call can select (an argument of static type Expr_list prefers an overload declared
+    # for it): each must bind the parameter to the very expression it was given
+    mks = sorted((g for g in F.fn.values() if g['name'] == mk['name'] and g.get('body') and len(g['params']) == 2
+                  and (g.get('parent') == mk.get('parent') or F.derives_from(g.get('parent') or '', mk.get('parent')))), key=lambda g: g['id'])
+    if mk['id'] not in [g['id'] for g in mks]:
+        raise AnalysisBroken('make_elementary_substitution(const Parameter&, const Expr&) has no body')
+    for mk in mks:
+        otag = '' if mk['params'][1]['t'].replace(' ', '') == 'constipr::Expr&' else f' <{contracts.short(mk["params"][1]["t"])} overload>'
+        outs = [o for o in S.run(mk['id']) if o[1] == 'return']
+        if not outs:
+            raise AnalysisBroken('make_elementary_substitution never returns')
+        op = None
+        for pi, (st, _k, v) in enumerate(outs):
+            tag = otag + ('' if len(outs) == 1 else f' [path {pi}: {contracts.render_conds(st.conds, st, {})[:100]}]')
+            # the substitution handed out must be one built here from (p, v): an object that existed before (the last one made, a
+            # cached one) has a binding of its own, which the request cannot know
+            obj0 = v[1] if isinstance(v, tuple) and v and v[0] == 'addr' else v
+            if not (isinstance(obj0, tuple) and obj0 and obj0[0] == 'obj' and obj0[1] in st.heap) and reused_is_same_binding(F, S, st, obj0):
+                ck.ok(R, 'operator[](bound parameter)' + tag)
+                ck.ok(R, 'operator[](other parameter)' + tag)
                 continue
-            c, val = conds[0]
-            # c must be the identity test &Q == &P0 (either order)
-            ident = c in (('op', '==', ('addr', Q), ('addr', ('param', 0))), ('op', '==', ('addr', ('param', 0)), ('addr', Q)))
-            if not ident:
-                cases['?'] = 'the case split is not the identity of the queried and the bound parameter: ' + contracts.render(c, s2, {})
+            if not (isinstance(obj0, tuple) and obj0 and obj0[0] == 'obj' and obj0[1] in st.heap):
+                ck.fail(R, 'operator[](bound parameter)' + tag, 'make_elementary_substitution(p, v) hands out `' + contracts.render(v, st, {})[:80]
+                        + '`, a substitution that existed before the request: whatever it binds, it was not built from (p, v), and applied to its '
+                        'own parameter it does not leave that parameter unchanged', loc=mk['loc'], fn=mk['id'])
                 continue
-            cases['bound' if val else 'other'] = v2
-        ck.check(R, 'operator[](bound parameter)' + tag, cases.get('bound') == ('param', 1),
-                 f'applying an elementary substitution [p -> v] to p yields `{contracts.render(cases.get("bound"), st, {}) if "bound" in cases else cases}` '
-                 f'(P0 = p, P1 = v), expected v', loc=f['loc'], fn=op)
-        ck.check(R, 'operator[](other parameter)' + tag, cases.get('other') == Q,
-                 f'applying an elementary substitution [p -> v] to another parameter q yields `{contracts.render(cases.get("other"), st, {}) if "other" in cases else cases}` '
-                 f'(P0 = p, P1 = v, P100 = q), expected q itself', loc=f['loc'], fn=op)
+            obj = v[1]
+            cls = st.heap[obj[1]].cls
+            op = F.final_overrider(cls, 'ipr::Substitution::operator[](const ipr::Parameter &) const')
+            if op is None or op not in F.fn:
+                raise AnalysisBroken('Elementary_substitution::operator[] not found')
+            f = F.fn[op]
+            Q = ('param', 100)
+            res = S.run(op, this=obj, args=[Q], state=st.fork())
+            base = len(st.conds)
+            cases = {}
+            for s2, k2, v2 in res:
+                conds = s2.conds[base:]
+                if k2 != 'return' or len(conds) != 1:
+                    cases['?'] = f'{k2} under {len(conds)} conditions'
+                    continue
+                c, val = conds[0]
+                # c must be the identity test &Q == &P0 (either order)
+                ident = c in (('op', '==', ('addr', Q), ('addr', ('param', 0))), ('op', '==', ('addr', ('param', 0)), ('addr', Q)))
+                if not ident:
+                    cases['?'] = 'the case split is not the identity of the queried and the bound parameter: ' + contracts.render(c, s2, {})
+                    continue
+                cases['bound' if val else 'other'] = v2
+            ck.check(R, 'operator[](bound parameter)' + tag, cases.get('bound') == ('param', 1),
+                     f'applying an elementary substitution [p -> v] to p yields `{contracts.render(cases.get("bound"), st, {}) if "bound" in cases else cases}` '
+                     f'(P0 = p, P1 = v), expected v', loc=f['loc'], fn=op)
+            ck.check(R, 'operator[](other parameter)' + tag, cases.get('other') == Q,
+                     f'applying an elementary substitution [p -> v] to another parameter q yields `{contracts.render(cases.get("other"), st, {}) if "other" in cases else cases}` '
+                     f'(P0 = p, P1 = v, P100 = q), expected q itself', loc=f['loc'], fn=op)
 
     # ---------------------------------------------------------------- general substitution
     RG = ck.rule('C16.general', 'a general substitution looks the queried parameter up by address, yields the stored expression '
